@@ -135,7 +135,8 @@ def plan(tier, seed):
                      capture=(rnd.random() < 0.75, rnd.random() < 0.75, rnd.random() < 0.75), retry=rnd.random() < 0.2,
                      observe=rnd.random() < 0.3, async_steps=rnd.random() < 0.25, chatty=rnd.random() < 0.06,
                      loglevel=rnd.choice(LOGLEVELS) if rnd.random() < 0.3 else "",
-                     logfilter=rnd.choice(LOGFILTERS) if rnd.random() < 0.3 else "")
+                     logfilter=rnd.choice(LOGFILTERS) if rnd.random() < 0.3 else "",
+                     logclear=rnd.random() < 0.2, tamper=rnd.random() < 0.2)
 
     def cleanup_only_programs():
         """programs in which NOTHING fails except a cleanup registered at a given layer (every layer, raising or not)"""
@@ -156,7 +157,10 @@ def plan(tier, seed):
         """every --logging-level x --logging-filter combination on two small programs with failing steps"""
         progs = [{"features": [G.feature([G.scenario(["pass", "fail", "pass"]), G.scenario(["error"])])], "family": "logging"},
                  {"features": [G.feature([G.scenario(["pass", "nest_fail"]), G.scenario(["pass", "pass"])], bg=["pass"])], "family": "logging"}]
-        cfgs = [G.cfg(loglevel=lv, logfilter=fl) for lv in [""] + LOGLEVELS for fl in [""] + LOGFILTERS]
+        cfgs = [G.cfg(loglevel=lv, logfilter=fl, logclear=(i + j) % 3 == 0, tamper=(i + j) % 2 == 0)
+                for i, lv in enumerate([""] + LOGLEVELS) for j, fl in enumerate([""] + LOGFILTERS)]
+        cfgs += [G.cfg(capture=cap, logclear=lc, tamper=True, stop=st) for cap in [(True, True, False), (False, True, True), (True, False, False), (False, False, False)]
+                 for lc in (False, True) for st in (False, True)]
         return [(with_o2(p), cfgs, [[0, 0]]) for p in progs]
 
     def with_skips(p, prob):
@@ -245,7 +249,7 @@ def shared(chk, part="core"):
     """Run (or load) the shared stage for this tree / tier / seed.  Returns a dict:
        n_runs, tlc: [{module,cfg,distinct,generated,wall,coverage}], verdicts: {clause: [ {key, ...} ]},
        divergences, samples, design_violations"""
-    key = tree_key({"tier": chk.tier, "seed": chk.seed, "part": part, "v": 12})
+    key = tree_key({"tier": chk.tier, "seed": chk.seed, "part": part, "v": 13})
     os.makedirs(CACHE, exist_ok=True)
     # one entry per (part, tier, repository location): runs against a mutated copy must not evict /repo's entry
     prefix = "%s-%s-%s-" % (part, chk.tier, hashlib.sha256(REPO.encode()).hexdigest()[:8])
